@@ -423,6 +423,11 @@ let handle_hist c =
     end;
     let load = memo_load (load_block dec file m.m_codec) in
     let step st o = cstep load m.m_root m.m_levels st o in
+    if m.m_codec = N0 && es <> [] && kx_want "decoder" (List.length file) then
+      kx_emit "decoder" c.id (Printf.sprintf "kx_dres (decode_file decompress_none %s)" (cq_bytes file))
+        (match decode_file decompress_none file with
+         | Done ((mm, des), nodes) -> Printf.sprintf "Some (%s, %s, %s)" (cq_n mm.m_root) (cq_entries des) (cq_bool (store_wf nodes mm.m_root mm.m_levels))
+         | _ -> "None");
     (* kernel cross-check: the history of cursor 0 when it is the only cursor and nothing fails *)
     if m.m_codec = N0 && get_all c "fault" = [] && kx_want "history" (List.length file) then begin
       let ops = List.filter_map (fun toks -> match toks with
@@ -487,7 +492,11 @@ let handle_hist c =
              (Printf.sprintf "after a failed operation on this cursor: impl=%s spec=%s (history position %d)" impl_r (res_string r) !opno);
            (match step cs_fresh o with
             | Done (st', r') -> check_eq c (field ^ ".after_failure") impl_r (res_string r');
-              Hashtbl.replace states cid (st', pos'); Hashtbl.remove unknown cid; Hashtbl.replace resynced cid true
+              (* the model follows the cursor again only from a position the specification determines: after an
+                 absolute move that found nothing, relative moves are unspecified and depend on what the failed
+                 operation left in the cursor's cache *)
+              if pos' <> Unspec then begin
+                Hashtbl.replace states cid (st', pos'); Hashtbl.remove unknown cid; Hashtbl.replace resynced cid true end
             | _ -> ())
          | None -> ());
         if String.length impl_r > 0 && (impl_r.[0] = 'E' || impl_r.[0] = 'P') then stop := true
@@ -872,7 +881,16 @@ let handle_sortnum c =
      let peak = int_of_string (get1 c "peak") in
      spec_ok c "C08.chunks" (peak <= m_int + 2) (Printf.sprintf "%d chunks alive at once > max %d + 2" peak m_int);
      check_eq c "creates" (get1 c "creates") (string_of_n ns.ns_creates)
-   | _ -> ())
+   | _ -> ());
+  let sizes = List.filter_map (fun t -> match t with ks :: vs :: _ -> Some (n_of_int (int_of_string ks + int_of_string vs)) | _ -> None) (get_all c "ins") in
+  if List.length sizes <= 300 && kx_want "sorter_numeric" (List.length sizes) then begin
+    let rec run st l = match l with [] -> Done st | z :: r -> (match n_insert scfg st z with Done st' -> run st' r | Panic -> Panic | Fail e -> Fail e) in
+    kx_emit "sorter_numeric" c.id
+      (Printf.sprintf "kx_nres (n_inserts (mk_scfg %s %s %s %s) (n_new (mk_scfg %s %s %s %s)) %s)" (cq_n scfg.sc_threshold) (cq_bool scfg.sc_realloc) (cq_n scfg.sc_max_chunks) (cq_n scfg.sc_init_cap)
+         (cq_n scfg.sc_threshold) (cq_bool scfg.sc_realloc) (cq_n scfg.sc_max_chunks) (cq_n scfg.sc_init_cap) (cq_list cq_n sizes))
+      (cq_outcome (fun ns -> Printf.sprintf "(%s, %s, %s, %s, %s, %s)" (cq_n ns.ns_buf.eb_L) (cq_n ns.ns_buf.eb_U) (cq_n ns.ns_buf.eb_n) (cq_n ns.ns_chunks) (cq_n ns.ns_creates) (cq_n ns.ns_peak))
+         (run (n_new scfg) sizes))
+  end
 
 
 (* ---------- C13: open ---------- *)
@@ -925,6 +943,15 @@ let handle_wsched c =
   let sched = parse_sched (get1 c "sched") in
   let plain = get1 c "plain" in
   let impl = get c "impl" in
+  if cfg.wc_codec = N0 && List.length sched <= 40 && kx_want "sched_writer" (bytes_size es) then begin
+    let cq_resp r = match r with RInterrupt -> "RInterrupt" | RAccept n -> "RAccept " ^ cq_n n in
+    kx_emit "sched_writer" c.id
+      (Printf.sprintf "kx_sres (w_run_sched compress_none %s (mk_wcfg %s %s %s %s %s) %s)" (cq_list cq_resp sched) (cq_n cfg.wc_codec) (cq_n cfg.wc_level)
+         (cq_n cfg.wc_block_size) (cq_n cfg.wc_interval) (cq_n cfg.wc_levels) (cq_entries es))
+      (match w_run_sched compress_none sched cfg es with
+       | (i, Done ((s, _), _)) -> Printf.sprintf "(%s, Some (%s, %s))" (cq_n i) (cq_bytes (sk_bytes s)) (cq_list cq_n s.sk_calls)
+       | (i, _) -> Printf.sprintf "(%s, None)" (cq_n i))
+  end;
   (match w_run_sched (compress_of zt) sched cfg es with
    | (_, Done ((s, _), _)) ->
      check_eq c "delivered" (String.concat " " impl) ("file " ^ hex_of_bytes (sk_bytes s));
@@ -958,6 +985,14 @@ let handle_wfault c =
     | [p; "="; at; cls; "fired"; fired] ->
       let field = "p" ^ p in
       let (pos, fl) = if p = "flush" then (None, true) else (Some (n_of_string p), false) in
+      if cfg.wc_codec = N0 && kx_want "faulty_writer" (bytes_size es) then
+        kx_emit "faulty_writer" c.id
+          (Printf.sprintf "kx_fres (w_run_fault compress_none %s %s (mk_wcfg %s %s %s %s %s) %s)" (cq_opt cq_n pos) (cq_bool fl) (cq_n cfg.wc_codec) (cq_n cfg.wc_level)
+             (cq_n cfg.wc_block_size) (cq_n cfg.wc_interval) (cq_n cfg.wc_levels) (cq_entries es))
+          (match w_run_fault compress_none pos fl cfg es with
+           | (i, Done ((s, _), _)) -> Printf.sprintf "(%s, Done %s)" (cq_n i) (cq_n s.fk_sink.vs_count)
+           | (i, Panic) -> Printf.sprintf "(%s, Panic)" (cq_n i)
+           | (i, Fail e) -> Printf.sprintf "(%s, Fail %s)" (cq_n i) (cq_err e));
       let model = (match w_run_fault (compress_of zt) pos fl cfg es with
         | (_, Done _) -> "ok -"
         | (i, Fail e) -> string_of_n i ^ " " ^ err_name e
